@@ -3,7 +3,7 @@
 #ifdef __cplusplus
 extern "C" {
 #endif
-/* arm the crash counter of this process: stop with _exit(99) just before wrapped libc call number crash_at (0-based; < 0 = only count);
+/* arm the crash counter of this process: stop with _exit(99) just before wrapped libc call number crash_at (0-based; -1 = only count; -2 = at the first send/sendmsg of more than one byte, i.e. the handshake message);
    partial >= 0: if that call is a send/sendmsg, first let (partial % len) bytes out; fd >= 0: where to report "K <n> <call>" */
 void vcrash_arm(long crash_at, int partial, int fd);
 void vcrash_disarm(void);
